@@ -131,6 +131,10 @@ def main(argv):
                         c.violation(label + ": MAC %s, HMAC-96 over the zeroed message under the localized key is %s" % (q["auth"], want),
                                     {"datagram": raw_hex, "scenario": dict(sc, steps=[st])}, key="mac-wrong")
     c.sample({"datagram_sizes": sorted(sizes)[:40]})
+    # ---- sessions that learn their engine id (None / b"", first probe lost and retried, passwords shared between the digests):
+    # every request after entry is flagged authenticated and signed under the key localized to the engine id it carries
+    from lib import v3sessions
+    v3sessions.run(c, v3exe, "C09", {"auth-flag", "mac", "user", "engine-id"})
     return c.finish(
         rule="%d sign() calls on arbitrary messages of 12..4080 octets at arbitrary offsets (MD5, SHA-1; debug+release) and %d datagrams of "
              "%d real sessions ({none, MD5, SHA-1} x {none, DES, AES} x key types; engine ids 5..32 octets, user names 1..32, boots/time widths 1..4 "
